@@ -706,6 +706,9 @@ func runExtractCase(c *Ctx, in Val) Val {
 		stdin = payload
 	}
 	res := runCar(c, cwdReal, stdin, args...)
+	if os.Getenv("VERIF_CLI_DEBUG") != "" {
+		fmt.Fprintf(os.Stderr, "car %q (cwd %s) exit=%d\nstderr: %s\n", args, cwdReal, res.exit, res.stderr)
+	}
 	return VL{extractStatus(res), rr, sb.snapshot()}
 }
 
